@@ -182,6 +182,40 @@ let compact_ops (ns : bytes) (ver : n) (ops : string list) : string =
       | Some r -> show_range r | None -> "none") !written in
     String.concat ";" outs ^ ";R:" ^ String.concat "," ranges
 
+let write_all (ns : bytes) (txs : bytes list) : csplitter outcome =
+  List.fold_left (fun acc t -> bind acc (fun c -> cs_write_tx c t)) (new_csplitter ns N0) txs
+
+(* write all, count, export, sequence length of the first share, parse *)
+let compact_rt (ns : bytes) (txs : bytes list) : string =
+  match write_all ns txs with
+  | Err -> "err" | Fault -> "fault"
+  | Ok c ->
+    let cnt = cs_count c in
+    (match cs_export c with
+     | Err -> "err" | Fault -> "fault"
+     | Ok (_, shs) ->
+       let seqlen = match shs with s :: _ -> sh_seq_len s | [] -> N0 in
+       Printf.sprintf "%s:%d:%s:%s" (string_of_n cnt) (List.length shs) (string_of_n seqlen)
+         (show_outcome show_big_list (parse_txs shs)))
+
+let rec take k l = if k <= 0 then [] else match l with [] -> [] | x :: t -> x :: take (k-1) t
+let rec drop k l = if k <= 0 then l else match l with [] -> [] | _ :: t -> drop (k-1) t
+
+(* ParseTxs on every contiguous sub-range of the exported sequence *)
+let subranges (ns : bytes) (txs : bytes list) : string =
+  match bind (write_all ns txs) cs_export with
+  | Err -> "err" | Fault -> "fault"
+  | Ok (_, shs) ->
+    let nsh = List.length shs in
+    let buf = Buffer.create 1024 in
+    for lo = 0 to nsh - 1 do
+      for hi = lo + 1 to nsh do
+        let sub = take (hi - lo) (drop lo shs) in
+        Buffer.add_string buf (Printf.sprintf "%d-%d=%s;" lo hi (show_outcome show_big_list (parse_txs sub)))
+      done
+    done;
+    Buffer.contents buf
+
 let show_delim = function
   | DelimOk (rest, l) -> "ok:" ^ hex_of_bytes rest ^ ":" ^ string_of_n l
   | DelimIncomplete -> "inc" | DelimErr -> "err" | DelimFault -> "fault"
@@ -301,6 +335,16 @@ let run (op : string) (a : string array) : string =
   | "sparse" ->
     show_outcome (show_list hex_of_bytes)
       (sparse_write_items [] (List.map sparse_item_of_string (split_list (arg 0))))
+  | "sparserr" ->
+    show_outcome (show_list show_blob)
+      (bind (sparse_write_items [] (List.map sparse_item_of_string (split_list (arg 0)))) parse_blobs)
+  | "specblob" ->
+    show_outcome (show_list hex_of_bytes)
+      (bind (new_blob (h 0) (h 3) (n 1) (parse_signer (arg 2))) (fun b -> Ok (blob_spec b)))
+  | "specpad" -> show_outcome hex_of_bytes (Ok (padding_spec (h 0) (n 1)))
+  | "speccompact" -> show_list hex_of_bytes (compact_spec (h 0) N0 (hex_list (arg 1)))
+  | "compactrt" -> compact_rt (h 0) (hex_list (arg 1))
+  | "subranges" -> subranges (h 0) (hex_list (arg 1))
   | "parseblobs" -> show_outcome (show_list show_blob) (parse_blobs (hex_list (arg 0)))
   | "compact" -> compact_ops (h 0) (n 1) (split_list (arg 2))
   | "parsetxs" -> show_outcome (show_list hex_of_bytes) (parse_txs (hex_list (arg 0)))
